@@ -22,8 +22,8 @@ func init() {
 			"BelowNull < AboveNull < Below(k) < Above(k) < AboveAll with Below(k1)/Above(k2) resolved by the key order and ties to Below, hence (O3) is antisymmetric, reflexive only on equal kind+key and " +
 			"transitive over all 125 kind triples under all 13 weak orderings of three keys (checked directly on the extracted table as well); (B) the TypeAsLowerBound/TypeAsUpperBound " +
 			"constant tables agree with that order (a bound is closed exactly when the cut lies on the far side of its key); (M) GetMySQLRangeCutMax/Min replace the running extreme exactly on " +
-			"the sign that means 'candidate is larger/smaller'; (K) MySQLRangeCutIsBinding/GetMySQLRangeCutKey cover every kind and treat exactly the keyed kinds as binding.",
-		NotCovered: "RemoveOverlappingRanges, the interval tree, multi-column range algebra, the key comparison itself (Type.Compare: see C26) and value conversion in compareRangeCuts for extended types",
+			"the sign that means 'candidate is larger/smaller'; (K) MySQLRangeCutIsBinding/GetMySQLRangeCutKey cover every kind and treat exactly the keyed kinds as binding; (T) the interval tree behind RemoveOverlappingRanges keeps its Parent pointers coupled with every child-pointer store and its two rotations are mirror images.",
+		NotCovered: "RemoveOverlappingRanges' merging logic, the interval tree's balancing/colour/MaxUpperbound invariants (only its pointer coupling is decided), multi-column range algebra, the key comparison itself (Type.Compare: see C26) and value conversion in compareRangeCuts for extended types",
 		Technique:  "finite-domain abstract interpretation (AST folding over kind x kind x sign) + order-law checking on the extracted table",
 		Run:        func(c *Ctx) { runC46(c, "sql") },
 		Fixture: func(c *Ctx, fx *Prog) {
@@ -297,6 +297,8 @@ func runC46(c *Ctx, sqlRel string) {
 		c.Check(got == mm.want, "C46-M", mm.name, fd.Pos(), "", fmt.Sprintf("%s replaces the running value when running.Compare(candidate) has sign %d, must be %d", mm.name, got, mm.want))
 	}
 
+	c46Tree(c, pk)
+
 	// ---- K: kind coverage helpers ---------------------------------------------------------
 	for _, h := range []string{"MySQLRangeCutIsBinding", "GetMySQLRangeCutKey"} {
 		fn := LookupFunc(pk, h)
@@ -527,4 +529,171 @@ func c46SelectSign(pk *packages.Package, fd *ast.FuncDecl) (int, bool) {
 		return true
 	})
 	return result, found
+}
+
+// ---- T: interval-tree pointer structure --------------------------------------------------------
+//
+// RemoveOverlappingRanges keeps ranges in a red-black interval tree whose nodes carry Left, Right
+// and Parent pointers. Two exact structural clauses:
+//   T1 (coupling)  every store `A.Left = B` / `A.Right = B` of a non-nil B is accompanied in the same
+//                  function by the store `B.Parent = A` (B written as the same expression, as `A.Left`
+//                  itself, or through a local alias assigned from it): replaceNode and the
+//                  rebalancing walk follow Parent pointers, so a stale one cuts a subtree off.
+//   T2 (mirror)    rotateLeft and rotateRight are mirror images on their pointer statements
+//                  (Left<->Right swapped); the augmentation statements (MaxUpperbound) are excluded.
+func c46Tree(c *Ctx, pk *packages.Package) {
+	c.Rule("C46-T1", "interval tree: every store of a non-nil child pointer (A.Left/A.Right = B) is coupled with B.Parent = A in the same function", 8)
+	c.Rule("C46-T2", "interval tree: rotateLeft and rotateRight are mirror images on their Left/Right/Parent statements", 1)
+	info := pk.TypesInfo
+	nodeTN, _ := pk.Types.Scope().Lookup("rangeColumnExprTreeNode").(*types.TypeName)
+	if nodeTN == nil {
+		if !c.fixtureMode {
+			c.Undecided("C46-T1", "rangeColumnExprTreeNode", 0, "tree node type not found")
+		}
+		return
+	}
+	isNodeField := func(se *ast.SelectorExpr, names ...string) bool {
+		sel := info.Selections[se]
+		if sel == nil {
+			return false
+		}
+		t := sel.Recv()
+		if p, ok := t.(*types.Pointer); ok {
+			t = p.Elem()
+		}
+		if !types.Identical(t, nodeTN.Type()) {
+			return false
+		}
+		for _, n := range names {
+			if se.Sel.Name == n {
+				return true
+			}
+		}
+		return false
+	}
+	for _, file := range pk.Syntax {
+		for _, d := range file.Decls {
+			fd, ok := d.(*ast.FuncDecl)
+			if !ok || fd.Body == nil {
+				continue
+			}
+			type store struct {
+				a, f, b string
+				pos     ast.Node
+				lit     bool
+			}
+			var childStores []store
+			parentStores := map[string]bool{} // "B|A"
+			alias := map[string][]string{}    // expr text -> alias identifiers assigned from it
+			ast.Inspect(fd.Body, func(n ast.Node) bool {
+				as, ok := n.(*ast.AssignStmt)
+				if !ok || len(as.Lhs) != len(as.Rhs) {
+					return true
+				}
+				for i, l := range as.Lhs {
+					r := as.Rhs[i]
+					if se, ok := ast.Unparen(l).(*ast.SelectorExpr); ok {
+						if isNodeField(se, "Left", "Right") && !isNilIdent(info, r) {
+							_, isLit := ast.Unparen(r).(*ast.UnaryExpr)
+							childStores = append(childStores, store{types.ExprString(se.X), se.Sel.Name, types.ExprString(r), as, isLit})
+						}
+						if isNodeField(se, "Parent") {
+							parentStores[types.ExprString(se.X)+"|"+types.ExprString(r)] = true
+						}
+					}
+					if id := identOf(l); id != nil {
+						alias[types.ExprString(r)] = append(alias[types.ExprString(r)], id.Name)
+					}
+				}
+				return true
+			})
+			for _, s := range childStores {
+				cands := []string{s.a + "." + s.f}
+				if !s.lit {
+					cands = append(cands, s.b)
+				}
+				cands = append(cands, alias[s.a+"."+s.f]...)
+				ok := false
+				for _, b := range cands {
+					if parentStores[b+"|"+s.a] {
+						ok = true
+					}
+				}
+				bdesc := s.b
+				if s.lit {
+					bdesc = "&node{…}"
+				}
+				c.Check(ok, "C46-T1", DeclName(fd)+"/"+s.a+"."+s.f+" = "+bdesc, s.pos.Pos(), "",
+					fmt.Sprintf("%s stores %s.%s = %s but never stores the child's Parent = %s: replaceNode/rebalancing follow Parent pointers, a stale one detaches a subtree and its ranges are silently lost", DeclName(fd), s.a, s.f, bdesc, s.a))
+			}
+		}
+	}
+	// T2
+	norm := func(name string) ([]string, *ast.FuncDecl) {
+		fd := c.P.Decl(LookupFunc(pk, "MySQLRangeColumnExprTree."+name))
+		if fd == nil {
+			return nil, nil
+		}
+		swap := name == "rotateRight"
+		var pivot string
+		var out []string
+		for _, st := range fd.Body.List {
+			onlyPtr := true
+			ast.Inspect(st, func(n ast.Node) bool {
+				if se, ok := n.(*ast.SelectorExpr); ok {
+					if sel := info.Selections[se]; sel != nil && sel.Kind() == types.FieldVal && !isNodeField(se, "Left", "Right", "Parent") {
+						onlyPtr = false
+					}
+				}
+				return true
+			})
+			if !onlyPtr {
+				continue
+			}
+			if as, ok := st.(*ast.AssignStmt); ok && as.Tok == token.DEFINE && pivot == "" {
+				if id := identOf(as.Lhs[0]); id != nil {
+					pivot = id.Name
+				}
+			}
+			var sb strings.Builder
+			ast.Inspect(st, func(n ast.Node) bool {
+				switch x := n.(type) {
+				case *ast.Ident:
+					name := x.Name
+					switch {
+					case name == pivot:
+						name = "PIVOT"
+					case name == "Left":
+						name = map[bool]string{false: "A", true: "B"}[swap]
+					case name == "Right":
+						name = map[bool]string{false: "B", true: "A"}[swap]
+					}
+					sb.WriteString(name + " ")
+				case *ast.BasicLit:
+					sb.WriteString(x.Value + " ")
+				case *ast.AssignStmt:
+					sb.WriteString("assign ")
+				case *ast.IfStmt:
+					sb.WriteString("if ")
+				case *ast.BinaryExpr:
+					sb.WriteString(x.Op.String() + " ")
+				case *ast.CallExpr:
+					sb.WriteString("call ")
+				}
+				return true
+			})
+			out = append(out, sb.String())
+		}
+		return out, fd
+	}
+	l, lfd := norm("rotateLeft")
+	r, _ := norm("rotateRight")
+	if lfd == nil || r == nil {
+		if !c.fixtureMode {
+			c.Undecided("C46-T2", "rotateLeft/rotateRight", 0, "rotation functions not found")
+		}
+		return
+	}
+	c.Check(strings.Join(l, "\n") == strings.Join(r, "\n") && len(l) >= 4, "C46-T2", "rotateLeft~rotateRight", lfd.Pos(), fmt.Sprintf("%d mirrored pointer statements", len(l)),
+		fmt.Sprintf("the pointer statements of rotateLeft and rotateRight are not mirror images:\n  left : %s\n  right: %s", strings.Join(l, " ; "), strings.Join(r, " ; ")))
 }
